@@ -134,6 +134,33 @@ impl Native {
     self.meta.is_method
   }
 
+  /// Describe this native's signature as json
+  #[cfg(feature = "verif")]
+  pub fn verif_signature_json(&self) -> String {
+    use crate::signature::Arity;
+    let (kind, min, max) = match self.meta.signature.arity {
+      Arity::Fixed(n) => ("fixed", n, n),
+      Arity::Variadic(n) => ("variadic", n, 255),
+      Arity::Default(a, b) => ("default", a, b),
+    };
+    let params: Vec<String> = self
+      .meta
+      .signature
+      .parameters
+      .iter()
+      .map(|p| format!("\"{}\"", p.kind))
+      .collect();
+    format!(
+      "{{\"arity\":\"{}\",\"min\":{},\"max\":{},\"is_method\":{},\"stackless\":{},\"params\":[{}]}}",
+      kind,
+      min,
+      max,
+      self.meta.is_method,
+      matches!(self.meta.environment, NativeEnvironment::StackLess),
+      params.join(",")
+    )
+  }
+
   #[inline]
   pub fn environment(&self) -> NativeEnvironment {
     self.meta.environment
